@@ -149,7 +149,7 @@ Inductive gcase :=
 | CNearest (band : Q) (ens : list (list qv)) (cut : Q) (grid : list qv) (obs : list (list Z))
 | CPrune (band : Q) (atoms : list qv) (cut eps : Q) (grid : list qv) (kept : list Z)
 | CAso (band tol : Q) (ens : list (list qv)) (radii : list Q) (w : option (list Q)) (grid : list qv) (obs : list Q)
-| CAif (band tol : Q) (ens : list (list qv)) (radii : list Q) (values : list (list Q)) (cut : Q) (idx : list (list Z))
+| CAif (band nband tol : Q) (ens : list (list qv)) (radii : list Q) (values : list (list Q)) (cut : Q) (idx : list (list Z))
        (w : option (list Q)) (grid : list qv) (obs : list Q).
 
 Fixpoint all2 {A B} (p : A -> B -> bool) (l : list A) (m : list B) : bool :=
@@ -180,7 +180,7 @@ Definition gcheck (c : gcase) : bool :=
   | CPrune band atoms cut eps grid kept => prune_okb band atoms cut eps grid kept
   | CAso band tol ens radii w grid obs =>
       all3 (fun g m o => near_surface band ens radii g || Qclose tol m o) grid (aso ens radii w grid) obs
-  | CAif band tol ens radii values cut idx w grid obs =>
-      nearest_rows_ok band ens cut grid idx &&
+  | CAif band nband tol ens radii values cut idx w grid obs =>
+      nearest_rows_ok nband ens cut grid idx &&
       all3 (fun g m o => near_surface band ens radii g || Qclose tol m o) grid (aif ens radii values idx w grid) obs
   end.
